@@ -223,6 +223,14 @@ theorem schedR_value (sc : Sch) (a : Nat) (k : Rc) (vs : List Int) (s : M) (ha :
       setCell a { s.cells a with stored := .value vs } s := touch_id hr
   cases sc <;> simp only [schedR, touch_id hr, applySch, h2] <;> simp [setCell]
 
+theorem spec_fwd (cfg : Cfg) (p : Term) (c : Cell) (hp : Spec cfg p) (env : List Int) (k : Rc) (s : M)
+    (ha : s.aborted = false) (hr : s.released = false) :
+    ∃ s', start cfg p env (fwdR k) (alloc c s) = k (denote p env) s' ∧ Ext s.next s s' := by
+  have x0 := Ext.alloc c s ha hr
+  obtain ⟨s1, e1, x1⟩ := hp env (fwdR k) (alloc c s) x0.aborted x0.released
+  refine ⟨s1, ?_, x0.trans (x1.weaken s.next (by simp [alloc]))⟩
+  rw [e1]; simp only [fwdR, touch_id x1.released]
+
 /-- **Receiver contract** for every term of the language (code variant `cfg.ok`). -/
 theorem spec (cfg : Cfg) (hc : cfg.ok = true) : ∀ t : Term, Spec cfg t
   | .just vs => fun env k s ha hr => ⟨s, by simp [start, ha, denote], Ext.refl _ _ ha hr⟩
@@ -232,6 +240,16 @@ theorem spec (cfg : Cfg) (hc : cfg.ok = true) : ∀ t : Term, Spec cfg t
   | .thn f p => fun env k s ha hr => by
     obtain ⟨s1, e1, x1⟩ := spec cfg hc p env (thenR f k) s ha hr
     exact ⟨s1, by simp [start, ha, denote, e1, thenR], x1⟩
+  | .bulk n f p => fun env k s ha hr => by
+    obtain ⟨s1, e1, x1⟩ := spec cfg hc p env (bulkR n f k) s ha hr
+    exact ⟨s1, by simp [start, ha, denote, e1, bulkR], x1⟩
+  | .rs p => fun env k s ha hr => by
+    obtain ⟨s1, e1, x1⟩ := spec_fwd cfg p { done := true } (spec cfg hc p) env k s ha hr
+    exact ⟨s1, by simp [start, ha, denote, e1], x1⟩
+  | .dos p => fun env k s ha hr => by
+    obtain ⟨s1, e1, x1⟩ := spec_fwd cfg p {} (spec cfg hc p) env k s ha hr
+    exact ⟨s1, by simp [start, ha, denote, e1], x1⟩
+  | .sd sc => fun env k s ha hr => ⟨s, by simp [start, ha, denote], Ext.refl _ _ ha hr⟩
   | .dv p => fun env k s ha hr => by
     obtain ⟨s1, e1, x1⟩ := spec cfg hc p env (dropR k) s ha hr
     refine ⟨s1, ?_, x1⟩
